@@ -665,9 +665,8 @@ class P(Sequence[H], HableOpsMixin):
         """
         group_counters: list[Counter[RealLike]] = []
 
-        for h, hs in groupby(self):
+        for h, n in _exact_groups(self):
             group_counter: Counter[RealLike] = Counter()
-            n = sum(1 for _ in hs)
 
             for k in range(0, n + 1):
                 group_counter[k] = h.exactly_k_times_in_n(outcome, n, k) * (
@@ -883,7 +882,7 @@ class P(Sequence[H], HableOpsMixin):
         if i == 0 or n == 0:
             rolls_with_counts_iter: Iterable[_RollCountT] = iter(())
         else:
-            groups = tuple((h, sum(1 for _ in hs)) for h, hs in groupby(self))
+            groups = tuple(_exact_groups(self))
 
             if len(groups) == 1:
                 # Based on cursory performance analysis, calling the homogeneous
@@ -1011,6 +1010,17 @@ def _analyze_selection(n: int, which: Iterable[_GetItemT]) -> Optional[int]:
         return max_index
     else:
         assert False, "logically impossible (should never be here)"
+
+
+def _exact_groups(hs: Iterable[H]) -> Iterator[tuple[H, int]]:
+    r"""
+    Groups consecutive histograms having identical outcomes and counts. (``#!python
+    H.__eq__`` considers proportional histograms equal, but their totals, and hence the
+    counts of their rolls, differ.)
+    """
+    for _, group in groupby(hs, key=lambda h: tuple(h.items())):
+        group_hs = tuple(group)
+        yield group_hs[0], len(group_hs)
 
 
 @beartype
